@@ -132,23 +132,27 @@ Qed.
 Lemma labels_equal_go_refl l : ksorted l -> labels_equal_go l l = true.
 Proof.
   intros Hs. unfold labels_equal_go. rewrite Nat.eqb_refl. cbn [andb].
-  apply forallb_forall. intros [k v] Hin. cbn [fst snd]. unfold lget.
+  apply forallb_forall. intros [k v] Hin. cbn [fst snd].
   rewrite (lookup_In k v l Hs Hin). apply beq_refl.
+Qed.
+
+(** the repaired Labels.Equal is equality of label maps (no condition on the values) *)
+Lemma labels_equal_go_eq_sorted l b :
+  ksorted l -> ksorted b -> labels_equal_go l b = true -> l = b.
+Proof.
+  intros Hl Hb H. unfold labels_equal_go in H. apply andb_true_iff in H. destruct H as [Hlen Hall].
+  apply Nat.eqb_eq in Hlen. rewrite forallb_forall in Hall.
+  assert (Hincl : incl l b).
+  { intros [k v] Hin. specialize (Hall _ Hin). cbn [fst snd] in Hall.
+    destruct (lookup k b) as [v'|] eqn:E; [|discriminate].
+    apply beq_eq in Hall. subst v'. apply lookup_Some_In. exact E. }
+  apply ksorted_ext; [exact Hl | exact Hb | exact Hincl|].
+  apply NoDup_length_incl; [apply ksorted_NoDup; exact Hl | lia | exact Hincl].
 Qed.
 
 Lemma labels_equal_go_eq l b :
   ksorted l -> ksorted b -> no_empty l -> labels_equal_go l b = true -> l = b.
-Proof.
-  intros Hl Hb Hne H. unfold labels_equal_go in H. apply andb_true_iff in H. destruct H as [Hlen Hall].
-  apply Nat.eqb_eq in Hlen. rewrite forallb_forall in Hall.
-  assert (Hincl : incl l b).
-  { intros [k v] Hin. specialize (Hall _ Hin). cbn [fst snd] in Hall. apply beq_eq in Hall.
-    unfold lget in Hall. destruct (lookup k b) as [v'|] eqn:E.
-    - subst v'. apply lookup_Some_In. exact E.
-    - exfalso. exact (Hne k v Hin Hall). }
-  apply ksorted_ext; [exact Hl | exact Hb | exact Hincl|].
-  apply NoDup_length_incl; [apply ksorted_NoDup; exact Hl | lia | exact Hincl].
-Qed.
+Proof. intros Hl Hb _. apply labels_equal_go_eq_sorted; assumption. Qed.
 
 Lemma same_labels_identical a b : plain a -> plain b -> same_labels a b = identical a b.
 Proof.
@@ -161,6 +165,31 @@ Proof.
     apply labels_equal_go_eq in E1; [|assumption..]. apply labels_equal_go_eq in E2; [|assumption..].
     assert (Hi : identical a b = true) by (apply identical_iff; unfold key_of; congruence).
     congruence.
+Qed.
+
+(** ... for results with sorted keys, whatever the values (also empty ones) *)
+Definition sorted_keys (r : result) : Prop := ksorted (r_labels r) /\ ksorted (r_namelabels r).
+
+Lemma same_labels_identical_sorted a b : sorted_keys a -> sorted_keys b -> same_labels a b = identical a b.
+Proof.
+  intros (Ha1 & Ha2) (Hb1 & Hb2).
+  destruct (identical a b) eqn:E.
+  - apply identical_iff in E. unfold key_of in E. inversion E as [[E1 E2]].
+    unfold same_labels. rewrite <- E1, <- E2, !labels_equal_go_refl by assumption. reflexivity.
+  - destruct (same_labels a b) eqn:Es; [|reflexivity]. exfalso.
+    unfold same_labels in Es. apply andb_true_iff in Es. destruct Es as [E1 E2].
+    apply labels_equal_go_eq_sorted in E1; [|assumption..]. apply labels_equal_go_eq_sorted in E2; [|assumption..].
+    assert (Hi : identical a b = true) by (apply identical_iff; unfold key_of; congruence).
+    congruence.
+Qed.
+
+(** before the repair: {name:X, a:""} and {name:X, b:"y"} compared equal one way round only *)
+Lemma labels_equal_unrepaired_refuted :
+  exists l b, labels_equal_go_unrepaired l b = true /\ labels_equal_go_unrepaired b l = false /\ l <> b
+              /\ labels_equal_go l b = false.
+Proof.
+  exists [(bs "a", []); (bs "name", bs "X")], [(bs "b", bs "y"); (bs "name", bs "X")].
+  repeat split; try (vm_compute; reflexivity). discriminate.
 Qed.
 
 (** ** the counter *)
